@@ -159,6 +159,14 @@ impl Interval {
     pub fn nonempty(&self) -> bool {
         self.least_in_bounds().is_some()
     }
+    /// the position of the lower bound (least point at or above it, whether or not within the upper bound)
+    pub fn least_in_bounds_or_lower(&self) -> MVersion {
+        match &self.lo {
+            None => MVersion::new(0, 0, 0).with_pre(vec![MId::Num(0)]),
+            Some((l, true)) => l.strip_build(),
+            Some((l, false)) => l.successor(),
+        }
+    }
     pub fn least_satisfying(&self) -> Option<MVersion> {
         let m = self.least_in_bounds()?;
         let mut cands = vec![m.clone(), m.release()];
